@@ -655,9 +655,10 @@ func csiSmall(ctx *h.Ctx) {
 }
 
 func drawC(t *rapid.T) CCase {
-	depth := rapid.IntRange(0, 7).Draw(t, "depth")
-	minShift := rapid.IntRange(0, 20).Draw(t, "minShift")
-	for minShift+3*depth > 32 {
+	// every geometry the index reader accepts: depth 0..10, coordinates below 2^62
+	depth := rapid.IntRange(0, 10).Draw(t, "depth")
+	minShift := rapid.IntRange(0, 40).Draw(t, "minShift")
+	for minShift+3*depth > 62 {
 		minShift--
 	}
 	if rapid.IntRange(0, 3).Draw(t, "default") == 0 {
@@ -729,6 +730,7 @@ func runC(c CCase, rec *h.Rec) {
 	rec.NTIf(c.Depth > 0 && (c.A[0]>>s != (c.A[1]-1)>>s || c.B[0]>>s != (c.B[1]-1)>>s))
 	rec.ClassIf(c.A[0] < c.B[1] && c.B[0] < c.A[1], "overlapping_pair")
 	rec.Class(fmt.Sprintf("depth%d", c.Depth))
+	rec.ClassIf(c.MinShift+3*c.Depth > 32, "range_beyond_2^32")
 }
 
 func TestProp(t *testing.T) {
